@@ -157,6 +157,9 @@ func run(c *vf.Ctx, si int) {
 			} else if forkAt > 1 && phase2 && r.Intn(3) == 0 {
 				pick = 4 // re-votes of those accounts under the final version
 			}
+			if forkAt > 1 && si%8 == 3 && pick == 6 {
+				pick = 4 // producer votes only (see known finding C15 .../pre-v2-vote-and-later-vote-on-another-issue)
+			}
 			switch pick {
 			case 0, 1: // stake
 				amt := new(big.Int).Mul(big.NewInt([]int64{10000, 10000, 12000, 500, 25000, 1300000, 70000}[r.Intn(7)]), rig.Aergo)
@@ -406,6 +409,10 @@ func run(c *vf.Ctx, si int) {
 				nameOwner[o.aux] = o.auxI
 			}
 		}
+		if os.Getenv("C15_DEBUG") == name {
+			sv, _ := n.SysValues()
+			fmt.Printf("DEBUG %s h=%d v=%d totalVP=%s txs=%v st=%v\n", name, no, w.Version(no), sv.TotalVP, cd.Txs, cd.Statuses)
+		}
 		if probs := invariants(c, w, n, NA, model, nameOwner); len(probs) > 0 {
 			fail("invariant/"+norm(probs[0]), strings.Join(probs, "\n  "), cd)
 			return false
@@ -490,7 +497,12 @@ func run(c *vf.Ctx, si int) {
 				diff++
 			}
 		}
-		c.Violation("vpr-differs-after-restart", fmt.Sprintf("%s: in-memory voting-power ranking before restart (total %s) and the one rebuilt from persisted state (total %s) pick different reward winners for %d of %d seeds", name, sv1.TotalVP, sv2.TotalVP, diff, len(seeds)), map[string]interface{}{"scenario": name})
+		key := "vpr-differs-after-restart"
+		if forkAt > 1 && si%8 != 3 {
+			// histories that cross the V2 hardfork AND contain votes on other issues afterwards
+			key += "/pre-v2-vote-and-later-vote-on-another-issue"
+		}
+		c.Violation(key, fmt.Sprintf("%s: in-memory voting-power ranking before restart (total %s) and the one rebuilt from persisted state (total %s) pick different reward winners for %d of %d seeds", name, sv1.TotalVP, sv2.TotalVP, diff, len(seeds)), map[string]interface{}{"scenario": name})
 		return
 	}
 	distinct := map[string]bool{}
